@@ -267,6 +267,11 @@ func runSeq(p *DPlan, system string, keepLog bool, prefix string) seqResult {
 		// state shared with the task
 		var lastBarrier map[uint64]expBlock
 		sinceBarrier := map[uint64]bool{}
+		// lostOK: blocks that were dirty when an fsync failed with EIO and the
+		// Barrier surfaced it as a panic: the loss has been reported, a later
+		// Barrier cannot bring the data back (the kernel marked the pages
+		// clean), so they are unconstrained until they are written again
+		lostOK := map[uint64]bool{}
 		r := s.Run(func() {
 			var d disk.Disk
 			var err error
@@ -414,11 +419,18 @@ func runSeq(p *DPlan, system string, keepLog bool, prefix string) seqResult {
 							lastBarrier = map[uint64]expBlock{}
 							for j := range cur {
 								lastBarrier[uint64(j)] = cur[j]
+								if lostOK[uint64(j)] {
+									lastBarrier[uint64(j)] = expBlock{}
+								}
 							}
 							sinceBarrier = map[uint64]bool{}
 						} else if !pan {
 							fail(prefix+".fault.silent", fmt.Sprintf("%s.fault.silent/fsync/%s", prefix, f.Kind), fmt.Sprintf("op %d: Barrier returned normally although its fsync failed (errno %d)", oi, f.Errno))
 							return
+						} else if f.Kind == "errno" && f.Errno != int(simunix.EINTR) {
+							for j := range sinceBarrier {
+								lostOK[j] = true
+							}
 						}
 					} else if pan {
 						fail(prefix+".refusal", "", fmt.Sprintf("op %d: Barrier panicked without a fault: %s", oi, msg))
@@ -427,6 +439,9 @@ func runSeq(p *DPlan, system string, keepLog bool, prefix string) seqResult {
 						lastBarrier = map[uint64]expBlock{}
 						for j := range cur {
 							lastBarrier[uint64(j)] = cur[j]
+							if lostOK[uint64(j)] {
+								lastBarrier[uint64(j)] = expBlock{}
+							}
 						}
 						sinceBarrier = map[uint64]bool{}
 					}
@@ -447,6 +462,9 @@ func runSeq(p *DPlan, system string, keepLog bool, prefix string) seqResult {
 					f := faultInOp()
 					if op.Addr < rd.N {
 						sinceBarrier[op.Addr] = true
+						if !pan && n == model.BlockSize {
+							delete(lostOK, op.Addr) // written again: dirty again
+						}
 					}
 					switch {
 					case f != nil:
